@@ -165,16 +165,72 @@ func plan(thorough bool) []History {
 			p = append(p, History{Coins: 1, EP1: e, ExtChild: true, EP2: e, End: end, A1: "tiny", A2: a2})
 		}
 	}
+	// (g) backend kinds: the wallet asks its backend what it is
+	// (chain.Interface.BackEnd) and may treat kinds differently, so the
+	// resynchronisation histories with at least two unconfirmed
+	// transactions including a parent/child pair are repeated for every
+	// backend kind, all answers accept, with HELD hand-overs (see
+	// History.Kind): offered exactly the unconfirmed set, each once, and no
+	// child before or while its parent is handed over
+	for _, kind := range backendKinds {
+		for _, end := range syncs {
+			// T1, T2 independent, C1 child of T1
+			p = append(p, History{Kind: kind, Coins: 2, Indep: 2, Child: true, EP1: "send", End: end, AR: "accept"})
+			// S1 and its child S2
+			p = append(p, History{Kind: kind, Coins: 1, EP1: "send", EP2: "send", End: end, A1: "accept", A2: "accept", AR: "accept"})
+		}
+		// S1, external child E1 of S1, wallet child S2 of both
+		p = append(p, History{Kind: kind, Coins: 1, EP1: "send", ExtChild: true, EP2: "send", End: "restart", A1: "accept", A2: "accept", AR: "accept"})
+		p = append(p, History{Kind: kind, Coins: 2, Indep: 2, Child: true, EP1: "publish", End: "restart", AR: "accept"})
+		if thorough {
+			for _, end := range syncs {
+				p = append(p, History{Kind: kind, Coins: 3, Indep: 3, Child: true, EP1: "send", End: end, AR: "accept"})
+				p = append(p, History{Kind: kind, Coins: 1, EP1: "publish", EP2: "publish", End: end, A1: "accept", A2: "accept", AR: "accept"})
+				p = append(p, History{Kind: kind, Coins: 1, EP1: "send", Mid: end, EP2: "send", End: end, A1: "accept", A2: "accept", AR: "accept"})
+				// every answer class at every rebroadcast position
+				p = append(p, History{Kind: kind, Coins: 2, Indep: 2, Child: true, EP1: "send", End: end})
+			}
+			p = append(p, History{Kind: kind, Coins: 1, EP1: "send", ExtChild: true, EP2: "send", End: "rescan", A1: "accept", A2: "accept", AR: "accept"})
+		}
+	}
+	// (h) raw backend answers end to end: for every curated "the backend
+	// already has it" message and every real client kind that receives it,
+	// the backend answers the initial broadcast of S1 (or, for the
+	// in-mempool class, its rebroadcast) with the RAW error and maps it with
+	// the real client's MapRPCErr
+	cls, _ := realClients()
+	for _, cl := range cls {
+		for _, rc := range rawCases() {
+			if !rc.E2E || !rc.sentTo(cl.ID) {
+				continue
+			}
+			for _, e := range eps {
+				if !thorough && e == "publish" && rc.Class != kInMempool {
+					continue
+				}
+				p = append(p, History{Client: cl.ID, Raw: rc.ID, Coins: 1, EP1: e, A1: "raw"})
+			}
+			if rc.Class != kInMempool {
+				continue // the record is left open by the statement
+			}
+			for _, end := range syncs {
+				p = append(p, History{Client: cl.ID, Raw: rc.ID, Coins: 1, EP1: "send", End: end, A1: "accept", AR: "raw"})
+			}
+		}
+	}
 	return p
 }
+
+var backendKinds = []string{"btcd", "bitcoind", "neutrino"}
 
 // firstArity is the number of alternatives of the first choice point of a
 // history (the work items are (history, first choice)).
 func firstArity(al *alphabets, h History) int {
+	dummy := &Answer{}
 	if h.Indep > 0 {
-		return len(al.resend)
+		return len(resendAl(al, h, dummy))
 	}
-	return len(al.initial(h.A1, h.EP1))
+	return len(initialAl(al, h, 1, dummy))
 }
 
 // claim decides which worker process runs work item k: first come, first
@@ -194,7 +250,7 @@ func claim(k int) bool {
 	return true
 }
 
-const rule = "every history of the plan (funding 1|2 coins, optional lease, S1 and optional child S2 through SendOutputs|PublishTransaction, optional restart|rescan resynchronisation between and after them, optional block confirming S1; and 2|3 independent transactions T1..Tn each spending its own coin, optional child of T1, then a restart|rescan resynchronisation; and S1 followed by an externally built unconfirmed transaction E1 that spends S1's external output and pays the wallet, optional wallet child S2, then a resynchronisation) x every backend answer at every broadcast (dynamic choice points, odometer enumeration); after each broadcasting call: error or rejecting answer => unconfirmed set, balances(0..3) and spendable set equal the observation before the call and the tx is unknown; accept/already-in-mempool => call succeeds, tx recorded exactly once, balance(0) = before - inputs + change; already-known/confirmed => call succeeds; after each resynchronisation: the backend was offered exactly the unconfirmed set, each once, parents first, rejected ones and their descendants are gone, their inputs are spendable again, their outputs no longer count and (when nothing unrelated was sent since) the state equals the observation before they were first sent; non-trivial = executions with at least one non-accept answer"
+const rule = "every history of the plan (funding 1|2 coins, optional lease, S1 and optional child S2 through SendOutputs|PublishTransaction, optional restart|rescan resynchronisation between and after them, optional block confirming S1; and 2|3 independent transactions T1..Tn each spending its own coin, optional child of T1, then a restart|rescan resynchronisation; and S1 followed by an externally built unconfirmed transaction E1 that spends S1's external output and pays the wallet, optional wallet child S2, then a resynchronisation) x every backend answer at every broadcast (dynamic choice points, odometer enumeration); after each broadcasting call: error or rejecting answer => unconfirmed set, balances(0..3) and spendable set equal the observation before the call and the tx is unknown; accept/already-in-mempool => call succeeds, tx recorded exactly once, balance(0) = before - inputs + change; already-known/confirmed => call succeeds; after each resynchronisation: the backend was offered exactly the unconfirmed set, each once, parents first, rejected ones and their descendants are gone, their inputs are spendable again, their outputs no longer count and (when nothing unrelated was sent since) the state equals the observation before they were first sent; non-trivial = executions with at least one non-accept answer; PLUS (backend kinds) the resynchronisation histories with >= 2 unconfirmed transactions incl. a parent/child pair repeated with BackEnd() = btcd|bitcoind|neutrino, all answers accept (thorough: all classes), hand-overs held until the wallet is quiescent: a child started before or WHILE its parent is handed over violates parents-first; PLUS (raw backend answers) a curated table of real btcd/bitcoind/neutrino rejection messages x the real MapRPCErr of chain.RPCClient (old and new btcd), BitcoindClient, NeutrinoClient: already-in-mempool => ErrTxAlreadyInMempool, already-known/confirmed => ErrTxAlreadyKnown|ErrTxAlreadyConfirmed, genuine rejection => none of them, and each already-present message end to end through the wallet with that real mapping"
 
 // Run is the entry point: args[0] = quick | thorough.
 func Run(args []string) {
@@ -210,12 +266,18 @@ func Run(args []string) {
 		}
 		var r struct {
 			Replay struct {
+				Kind    string          `json:"kind"`
+				Client  string          `json:"client"`
+				Case    string          `json:"case"`
 				History json.RawMessage `json:"history"`
 				Choices json.RawMessage `json:"choices"`
 			} `json:"replay"`
 		}
 		if err := json.Unmarshal(b, &r); err != nil {
 			ev.Fatal("replay: %v", err)
+		}
+		if r.Replay.Kind == "c20-raw" {
+			os.Exit(rawReplay(r.Replay.Client, r.Replay.Case))
 		}
 		runOne(append([]string{string(r.Replay.History), string(r.Replay.Choices)}, args[2:]...))
 		return
@@ -231,6 +293,21 @@ func Run(args []string) {
 	}
 	if !ev.IsWorker() {
 		cov := run.RunSharded(workers, append(append([]string{}, ShardArgsPrefix...), args...))
+		// part "raw backend answers": table over the real error mappings
+		rt := rawTable()
+		for _, v := range rt.Viols {
+			run.Violation(v.Sig, v.Msg, v.Replay)
+		}
+		cov["raw_answer_cases"] = rt.Cases
+		cov["raw_answer_cases_already_present"] = rt.Already
+		cov["raw_answer_cases_genuine_rejection"] = rt.Rejections
+		cov["raw_answer_mapping_calls"] = rt.Calls
+		cov["raw_answer_real_clients"] = strings.Join(rt.Clients, ", ")
+		cov["raw_answer_clients_unavailable"] = len(rt.Unavailable)
+		cov["raw_answer_samples"] = rt.Samples
+		if n, _ := cov["evaluations"].(int); true {
+			cov["evaluations"] = n + rt.Cases
+		}
 		cov["rule"] = rule
 		cov["bounds"] = fmt.Sprintf("coins<=3 (1e8,2e8,3e8, P2WPKH BIP84 account 0), <=2 wallet sends in a chain (S1, child S2) or <=3 independent sends plus one child (initial answers accept, all 6 answer classes at each of the <=4 rebroadcast positions), <=2 resynchronisations (restart|rescan), <=1 confirming block, <=1 lease; initial-broadcast alphabet full=%d answers (accept, in-mempool, wrapped in-mempool, known, confirmed, %d other sentinels, opaque, NotifyReceived failure, change-subscription failure) or reduced=%d; rebroadcast alphabet=%d; full x full product for two-broadcast histories without resynchronisation (thorough, 1 coin, both sends through the same entry point), full x reduced + reduced x (full minus reduced) or reduced x reduced otherwise; reduced alphabets in histories with resynchronisations between two sends",
 			len(al.full), al.nRPC-3+al.nVar, len(al.reduced), len(al.resend))
@@ -244,6 +321,11 @@ func Run(args []string) {
 			"already-known / already-confirmed answers: only success of the call is required, the record is left open by the statement",
 			"a transaction whose ancestor was answered with a removing class in the same resynchronisation may or may not be re-offered",
 			"the order in which independent transactions are re-offered is the wallet's (map iteration in its dependency sort); answers are enumerated per rebroadcast position, the oracle maps them to transactions through the backend's log",
+			"backend kinds: only BackEnd() of the fake backend changes (btcd | bitcoind | neutrino), the notification order stays the btcd one; in those histories every rebroadcast hand-over is held inside the fake SendRawTransaction until all other wallet goroutines are parked (goroutine states, no delay), so 'a child is handed over while its parent's hand-over has not returned' is observed deterministically and counts as a violation of parents-first (counters resynchronisations_with_parent_child_pair_per_backend_kind, handovers_held, parent_child_pairs_checked_held, handovers_overlapping, hold_timeouts)",
+			"raw backend answers: the message list is curated from the btcd, bitcoind and neutrino sources (not generated from chain/errors.go) and only pairs (message, client kind) that really occur are asserted: old btcd wording for chain.RPCClient with a backend version without testmempoolaccept and for chain.NeutrinoClient, current btcd wording for chain.RPCClient with a newer backend and for NeutrinoClient, bitcoind wording (incl. the '<code>: reason' / 'reason (code n)' formats and the v28 utxo-set wording) for chain.BitcoindClient; bitcoind reject reasons relayed by neutrino peers are not asserted. RPC clients are never-connected zero values (the cached backend version of rpcclient.Client is preset); neutrino errors are made by the real pushtx.ParseBroadcastError. already-in-mempool messages must map to chain.ErrTxAlreadyInMempool, already-known/confirmed ones to ErrTxAlreadyKnown or ErrTxAlreadyConfirmed, genuine rejections to none of the three (counters raw_answer_*); every 'already has it' message is also driven through the wallet (fake backend returning RealClient.MapRPCErr(raw error)) with the oracle of the scripted answers (counter raw_answers_end_to_end)",
+		}
+		if len(rt.Unavailable) > 0 {
+			run.Assumption = append(run.Assumption, "real clients that could not be built without a connection: "+strings.Join(rt.Unavailable, "; "))
 		}
 		run.Finish(cov)
 		return
@@ -255,6 +337,10 @@ func Run(args []string) {
 	states := map[string]bool{}
 	classes := map[string]int{}
 	eps := map[string]int{}
+	kindSyncs := map[string]int{}
+	rawE2E := map[string]int{}
+	heldN, overlaps, pairsHeld, holdTO, rawExecs := 0, 0, 0, 0, 0
+	var kindSamples []string
 	var samples []string
 	complete := true
 	simID := shard * 1000000
@@ -303,6 +389,20 @@ outer:
 				}
 				for e, n := range res.EPs {
 					eps[e] += n
+				}
+				for e, n := range res.KindSyncs {
+					kindSyncs[e] += n
+				}
+				for e, n := range res.RawE2E {
+					rawE2E[e] += n
+					rawExecs += n
+				}
+				heldN += res.Held
+				overlaps += res.Overlaps
+				pairsHeld += res.PairsHeld
+				holdTO += res.HoldTimeouts
+				if (h.Kind != "" || h.Client != "") && len(kindSamples) < 1 && res.Viol == nil {
+					kindSamples = append(kindSamples, "["+h.String()+"] answers "+fmt.Sprint(res.Answers)+" :: "+strings.Join(res.Trace, " | "))
 				}
 				if res.Viol != nil {
 					if strings.HasPrefix(res.Viol.Sig, "panic:") {
@@ -368,8 +468,16 @@ outer:
 		"balance_checks_skipped":        balSkips,
 		"broadcasts_per_answer_class":   classes,
 		"initial_broadcasts_per_entry":  eps,
-		"exhaustive":                    complete,
-		"samples":                       samples,
+		"resynchronisations_with_parent_child_pair_per_backend_kind": kindSyncs,
+		"handovers_held":                  heldN,
+		"handovers_overlapping":           overlaps,
+		"parent_child_pairs_checked_held": pairsHeld,
+		"hold_timeouts":                   holdTO,
+		"raw_answers_end_to_end":          rawExecs,
+		"raw_answers_end_to_end_cases":    rawE2E,
+		"samples_backend_kinds_and_raw":   kindSamples,
+		"exhaustive":                      complete,
+		"samples":                         samples,
 	})
 }
 
